@@ -49,10 +49,61 @@ type c02Cfg struct {
 	QUIC    bool    `json:"quic"`
 }
 
+// c02Edit: an edit applied between BuildHandshakeState and a second marshal (MarshalClientHello, then Handshake).
+type c02Edit struct {
+	Op   string `json:"op"`   // sni | sni-remove | add-ext | del-ext | random
+	Name []int  `json:"name"` // sni: the new server name; add-ext: the data of the GenericExtension put in front
+}
+
+// c02HRR: a real handshake against the in-tree server restricted to one group (HelloRetryRequest when the client
+// has no share for it), optionally with a cookie in the HelloRetryRequest.
+type c02HRR struct {
+	Group  int `json:"group"`
+	Cookie int `json:"cookie"`
+}
+
 type c02Case struct {
-	Sc  int    `json:"sc"`
-	Src c02Src `json:"src"`
-	Cfg c02Cfg `json:"cfg"`
+	Sc   int      `json:"sc"`
+	Src  c02Src   `json:"src"`
+	Cfg  c02Cfg   `json:"cfg"`
+	Edit *c02Edit `json:"edit"`
+	HRR  *c02HRR  `json:"hrr"`
+}
+
+func applyEdit(u *tls.UConn, e *c02Edit) error {
+	switch e.Op {
+	case "sni":
+		u.SetSNI(string(hlib.Unints(e.Name)))
+	case "sni-remove":
+		return u.RemoveSNIExtension()
+	case "add-ext":
+		u.Extensions = append([]tls.TLSExtension{&tls.GenericExtension{Id: 0x1235, Data: hlib.Unints(e.Name)}}, u.Extensions...)
+	case "del-ext":
+		if len(u.Extensions) > 0 {
+			u.Extensions = u.Extensions[1:]
+		}
+	case "random":
+		r := make([]byte, 32)
+		for i := range r {
+			r[i] = byte(0xA0 + i)
+		}
+		return u.SetClientRandom(r)
+	default:
+		return fmt.Errorf("unknown edit %q", e.Op)
+	}
+	return nil
+}
+
+func sameInts(a, b []int) bool {
+	if len(a) != len(b) {
+		return false
+	}
+	for i := range a {
+		if a[i] != b[i] {
+			return false
+		}
+	}
+	return true
 }
 
 var c02pki = sync.OnceValue(func() *hlib.PKI { return hlib.NewPKI() })
@@ -213,7 +264,8 @@ func wireHelloOf(mk func(c *hlib.BufConn) *tls.UConn) (u *tls.UConn, wire []byte
 
 func runC02(cs c02Case) (ev map[string]any, herr error) {
 	ev = map[string]any{"ev": "Hello", "sc": cs.Sc, "stage": "src", "srcerr": "", "preseterr": "", "builderr": "", "built": false,
-		"raw": []int{}, "started": false, "hserr": "", "onwire": false, "wire": []int{}, "wiresame": false, "nwire": 0, "panic": "", "warm": ""}
+		"raw": []int{}, "started": false, "hserr": "", "onwire": false, "wire": []int{}, "wiresame": false, "nwire": 0, "panic": "", "warm": "",
+		"edited": false, "editerr": "", "raw2": []int{}, "wire2": []int{}, "serr": ""}
 	defer func() {
 		if p := recover(); p != nil {
 			ev["panic"] = fmt.Sprint(p)
@@ -276,6 +328,35 @@ func runC02(cs c02Case) (ev map[string]any, herr error) {
 		uq.Close()
 		return ev, nil
 	}
+	if cs.HRR != nil {
+		ev["stage"] = "hrr"
+		scfg := &tls.Config{Certificates: []tls.Certificate{c02cert()}, CurvePreferences: []tls.CurveID{tls.CurveID(cs.HRR.Group)}}
+		if cs.HRR.Cookie > 0 {
+			ck := make([]byte, cs.HRR.Cookie)
+			for i := range ck {
+				ck[i] = byte(0xC0 + i%32)
+			}
+			tls.VerifSetOverride(scfg, &tls.VerifOverride{HRRCookie: ck})
+		}
+		r := hlib.RunHandshake(cfg, scfg, id, hlib.HSOpts{Timeout: 5 * time.Second, Prep: func(u *tls.UConn) error {
+			if spec != nil {
+				return u.ApplyPreset(spec)
+			}
+			return nil
+		}})
+		ev["started"] = true
+		ev["hserr"], ev["serr"], ev["panic"] = hlib.ErrStr(r.CErr), hlib.ErrStr(r.SErr), r.CPanic
+		chs := hlib.ClientHellos(r.CWire)
+		ev["nwire"] = len(chs)
+		if len(chs) > 0 {
+			ev["onwire"] = true
+			ev["wire"] = hlib.Ints(chs[0])
+		}
+		if len(chs) > 1 {
+			ev["wire2"] = hlib.Ints(chs[1])
+		}
+		return ev, nil
+	}
 	var stage = "preset"
 	u, wire, hserr, pn := wireHelloOf(func(c *hlib.BufConn) *tls.UConn {
 		u := tls.UClient(c, cfg, id)
@@ -296,6 +377,23 @@ func runC02(cs c02Case) (ev map[string]any, herr error) {
 		if u.HandshakeState.Hello != nil {
 			ev["raw"] = hlib.Ints(u.HandshakeState.Hello.Raw)
 		}
+		if cs.Edit != nil {
+			// edit the built hello, marshal again: every Raw the library hands out is logged
+			stage = "edit"
+			ev["stage"] = stage
+			if err := applyEdit(u, cs.Edit); err != nil {
+				ev["editerr"] = err.Error()
+				return nil
+			}
+			if err := u.MarshalClientHello(); err != nil {
+				ev["editerr"] = err.Error()
+				return nil
+			}
+			ev["edited"] = true
+			if u.HandshakeState.Hello != nil {
+				ev["raw2"] = hlib.Ints(u.HandshakeState.Hello.Raw)
+			}
+		}
 		stage = "handshake"
 		ev["stage"] = stage
 		ev["started"] = true
@@ -309,14 +407,11 @@ func runC02(cs c02Case) (ev map[string]any, herr error) {
 	if len(chs) > 0 {
 		ev["onwire"] = true
 		w := hlib.Ints(chs[0])
-		if raw, _ := ev["raw"].([]int); len(raw) == len(w) && func() bool {
-			for i := range w {
-				if w[i] != raw[i] {
-					return false
-				}
-			}
-			return true
-		}() {
+		last, _ := ev["raw"].([]int)
+		if ev["edited"] == true {
+			last, _ = ev["raw2"].([]int)
+		}
+		if sameInts(last, w) {
 			ev["wiresame"] = true // the harness does not ship the same bytes twice (TLC's JSON reader is the bottleneck)
 		} else {
 			ev["wire"] = w
